@@ -152,6 +152,9 @@ impl C03 {
                     if get("vlan_ids") != Some(want_ids) {
                         bad = Some(format!("vlan_ids() packs to {:?}, the VLAN layers give {}", get("vlan_ids"), want_ids));
                     }
+                    if get("views_consistent") == Some(0) {
+                        bad = Some("views (NetSlice::ip_payload_ref / is_ip / *_ref, LinkSlice::sll_payload, vlan()) disagree with the fields they are views of".to_string());
+                    }
                     match bad {
                         Some(b) => rep.violation(&format!("packet_accessor|{}|{}", name, b.split('(').next().unwrap_or("").trim()), format!("{}: {}", name, b), &case.bytes),
                         None => rep.count("packet_accessors_agree"),
